@@ -57,9 +57,11 @@ def set_fields(msg, mid, st, n, opt):
                 setattr(msg.command_set, f, st)
 
 
-def sent_ok(assoc, cls, cid, expect_data):
-    """The generator queued by the last send: command fragments joined form a well-formed command group."""
-    pdus = list(assoc.dul.sent[-1])
+def sent_ok(assoc, cls, cid, expect_data, index=-1, mid=None):
+    """The generator queued by the send number `index`: command fragments joined form a well-formed command group."""
+    g = assoc.dul.sent[index]
+    pdus = g if isinstance(g, list) else list(g)
+    assoc.dul.sent[index] = pdus
     cmd = []
     ndata = 0
     for p in pdus:
@@ -80,21 +82,29 @@ def sent_ok(assoc, cls, cid, expect_data):
     if ivrle.us(cf) != PS37_COMMAND_FIELD[cls.__name__]:
         return False
     no_ds = ivrle.us(dst) == 0x0101
+    if mid is not None:
+        # the message says what it said when it was sent
+        m = ivrle.find(elems, 0, 0x0110)
+        if m is None:
+            m = ivrle.find(elems, 0, 0x0120)
+        if m is not None and ivrle.us(m) != mid:
+            return False
     return no_ds == (ndata == 0) and (ndata > 0) == expect_data
 
 
 @cond(bounds='each of the 23 message classes, one send: message id and status/priority/counter fields symbolic over '
              '0..65535, UID length symbolic 1..4 (quick) / 1..64 (thorough) so that odd/even padding is exercised, '
-             'optional fields set/unset symbolic, data set absent/present symbolic',
+             'optional fields set/unset symbolic, data set absent/present symbolic; the context the message is sent on was '
+             'accepted with implicit LE / explicit LE / explicit BE (symbolic) - the command set is implicit LE regardless',
       family={'cls': list(range(23))}, timeout=120, thorough_timeout=900)
-def command_set_wellformed(mid: int, st: int, n: int, opt: bool, ds1: bool) -> bool:
+def command_set_wellformed(mid: int, st: int, n: int, opt: bool, ds1: bool, tsi: int) -> bool:
     """
-    pre: 0 <= mid <= 65535 and 0 <= st <= 65535 and 1 <= n <= _nmax()
+    pre: 0 <= mid <= 65535 and 0 <= st <= 65535 and 1 <= n <= _nmax() and 0 <= tsi <= 2
     post: _
     """
     cls = MSG_CLASSES[fam('cls')]
     msg = cls()
-    a = make_assoc(16384)
+    a = make_assoc(16384, pick(tsi, 0, 2))
     set_fields(msg, mid, st, n, opt)
     msg.data_set = DS1 if ds1 else None
     a.send(msg, 3)
@@ -109,8 +119,9 @@ DS2 = b'\x08\x00\x18\x00\x04\x00\x00\x001.2.'
 
 @cond(bounds='each of the 23 message classes: the same message object sent twice (three times in the thorough tier) '
              'with message id, status, UID length (2 -> 1..4, so that the encoded size changes), optional fields (unset -> set) and data-set presence (present / None / empty) changed '
-             'between sends (all symbolic)', family={'cls': list(range(23))}, timeout=120, thorough_timeout=600)
-def resend_wellformed(mid: int, mid2: int, n2: int, ds1: bool, ds2: int, opt1: bool) -> bool:
+             'between sends (all symbolic); schedule symbolic: the provider thread drains each queued message at once, or all '
+             'of them only after the last send', family={'cls': list(range(23))}, timeout=180, thorough_timeout=900)
+def resend_wellformed(mid: int, mid2: int, n2: int, ds1: bool, ds2: int, opt1: bool, lazy: bool) -> bool:
     """
     pre: 0 <= mid <= 65535 and 0 <= mid2 <= 65535 and 1 <= n2 <= 4 and 0 <= ds2 <= 2
     post: _
@@ -121,18 +132,23 @@ def resend_wellformed(mid: int, mid2: int, n2: int, ds1: bool, ds2: int, opt1: b
     set_fields(msg, mid, mid2, 2, opt1)
     msg.data_set = DS1 if ds1 else None
     a.send(msg, 3)
-    ok = sent_ok(a, cls, 3, ds1)
+    ok = lazy or sent_ok(a, cls, 3, ds1, 0, mid)
     # second send of the same object with changed fields (as the C-FIND / C-MOVE providers do)
     set_fields(msg, mid2, mid, n2, True)
     msg.data_set = (DS2, None, b'')[ds2]
     a.send(msg, 3)
-    ok = ok and sent_ok(a, cls, 3, ds2 == 0)
+    ok = ok and (lazy or sent_ok(a, cls, 3, ds2 == 0, 1, mid2))
     if tier() == 'thorough':
         set_fields(msg, mid, mid, 3, True)
         msg.data_set = DS1
         a.send(msg, 3)
-        ok = ok and sent_ok(a, cls, 3, True)
-    deep(ok and ds2 == 2 and n2 == 1)
+        ok = ok and (lazy or sent_ok(a, cls, 3, True, 2, mid))
+    if lazy:
+        # the provider thread takes the queued messages only now: each must still be what it was when it was sent
+        ok = ok and sent_ok(a, cls, 3, ds1, 0, mid) and sent_ok(a, cls, 3, ds2 == 0, 1, mid2)
+        if tier() == 'thorough':
+            ok = ok and sent_ok(a, cls, 3, True, 2, mid)
+    deep(ok and ds2 == 2 and n2 == 1 and lazy)
     return ok
 
 
